@@ -3,7 +3,7 @@
 from whad.protocol.whad_pb2 import Message
 from whad.scapy.layers.esb import ESB_Hdr, ESB_Payload_Hdr, ESB_Ack_Response, ESB_Pseudo_Packet
 from ..message import pb_bind, PbFieldBytes, PbFieldBool, PbFieldInt, PbMessageWrapper, \
-    dissect_failsafe
+    dissect_failsafe, convert_failsafe
 from . import EsbDomain, ESBMetadata
 
 @pb_bind(EsbDomain, 'send', 1)
@@ -29,6 +29,7 @@ class SendPdu(PbMessageWrapper):
         return packet
 
     @staticmethod
+    @convert_failsafe
     def from_packet(packet, retr_count: int = 1):
         """Convert scapy packet to SendPdu message.
         """
@@ -62,6 +63,7 @@ class SendRawPdu(PbMessageWrapper):
 
 
     @staticmethod
+    @convert_failsafe
     def from_packet(packet, retr_count: int = 1):
         """Convert scapy packet to SendPdu message.
         """
@@ -101,6 +103,7 @@ class PduReceived(PbMessageWrapper):
         return packet
 
     @staticmethod
+    @convert_failsafe
     def from_packet(packet):
         """Convert scapy packet to PduReceived message
         """
@@ -153,6 +156,7 @@ class RawPduReceived(PbMessageWrapper):
         return packet
 
     @staticmethod
+    @convert_failsafe
     def from_packet(packet):
         """Convert scapy packet to RawPduReceived message
         """
